@@ -64,14 +64,21 @@ class ReplayRng(SymRng):
         return out
 
 
-def make_env(H, W, stochastic, counter):
+def new_counter():
+    return dict(obs_calls=0, obs_states=[], obs_tags=[], reset_calls=0, reset_rngs=[], reset_state=None)
+
+
+def make_env(H, W, stochastic, counter, obs_wrap=None):
     types = [Floor, Wall, Exit, Key, MovingObstacle]
     tf = [T.move_agent, T.turn_agent] + ([T.move_obstacles] if stochastic else [T.actuate_door, T.pickndrop])
     ospace = ObservationSpace(Shape(1, 1), types, [Color.NONE, Color.YELLOW])  # 1x1 view: the content of observations is C05's business
 
     def obs_f(state, *, rng=None):
         counter['obs_calls'] += 1
-        counter['obs_states'].append(state)
+        if obs_wrap is not None:
+            obs_wrap(state)
+        else:
+            counter['obs_states'].append(state)
         tag = rng.integers(0, 2)  # a stochastic observation function: one draw per computation
         ob = OF.fully_transparent(state, area=ospace.area, rng=rng)
         counter['obs_tags'].append(tag)
@@ -89,13 +96,30 @@ def make_env(H, W, stochastic, counter):
     return env
 
 
+def install(env, counter, S, rng):
+    """puts the environment into state S through its public interface: the reset function (ours) returns S. The generator is the one
+    attribute set directly (GridWorld._rng, named by the properties' anchors; set_seed can only install a numpy generator)"""
+    env._rng = rng
+    counter['reset_state'] = S
+    env.reset()
+    counter['reset_state'] = None
+    counter['reset_calls'] = 0
+    del counter['reset_rngs'][:]
+
+
 def states_equal(sx, A, B, lab):
+    if A is B:
+        return
     sx.check(sym_and(A.agent.position.y == B.agent.position.y, A.agent.position.x == B.agent.position.x) and A.agent.orientation is B.agent.orientation,
              lab + '-pose')
     if held_touched(A) or held_touched(B):
         sx.check(same_object(A.agent.grid_object, B.agent.grid_object), lab + '-held')
     for k in set(post_cells(A)) | set(post_cells(B)):
         sx.check(same_object(A.grid.objects[k[0]][k[1]], B.grid.objects[k[0]][k[1]]), lab + '-cell', str(k))
+
+
+def same_obs(a, b):
+    return a is b or bool(a == b)
 
 
 OPS = ['reset', 'step', 'observation', 'observation-twice', 'state', 'step-then-reads']
@@ -106,27 +130,27 @@ def mk(H, W, stochastic, op):
 
     def h(sx):
         reset_gv_debug(False)
-        counter = dict(obs_calls=0, obs_states=[], obs_tags=[], reset_calls=0, reset_rngs=[], reset_state=None)
+        counter = new_counter()
         env = make_env(H, W, stochastic, counter)
         rng = SymRng(sx)
-        env._rng = rng
         S, world = lazy_state(sx, H, W, sigma, held_sigma=[e for e in sigma if e[0].startswith('Key')])
-        env._state = S
+        install(env, counter, S, rng)
         memo = sx.choice('memo', ['none', 'computed'])
-        if memo == 'computed':  # pre-state satisfying the invariant: memo computed from the current state
-            env._observation = env.functional_observation(S)
+        memo0 = None
+        if memo == 'computed':  # pre-state: the observation of the current state has been read before
+            memo0 = env.observation
         calls0, draws0 = counter['obs_calls'], rng.n
-        memo0 = env._observation
         sx.cover(op)
         if op == 'reset':
             fresh, _ = lazy_state(sx, H, W, sigma, name='r', held_sigma=[], agent='r', held='rheld')
             counter['reset_state'] = fresh
             env.reset()
             sx.check(counter['reset_calls'] == 1 and counter['reset_rngs'][0] is rng, 'reset-calls-the-reset-function-once-with-the-env-rng')
-            sx.check(env._state is fresh and env.state is fresh, 'reset-installs-the-functional-reset-state')
-            sx.check(env._observation is None, 'reset-clears-the-memoised-observation')
+            states_equal(sx, env.state, fresh, 'reset-installs-the-functional-reset-state')
+            c0 = counter['obs_calls']
             ob = env.observation
-            sx.check(counter['obs_states'][-1] is fresh, 'observation-after-reset-belongs-to-the-new-state')
+            sx.check(counter['obs_calls'] == c0 + 1, 'observation-recomputed-after-reset')
+            states_equal(sx, counter['obs_states'][-1], fresh, 'observation-after-reset-belongs-to-the-new-state')
         elif op in ('step', 'step-then-reads'):
             a = sx.choice('a', ACTIONS)
             twin_in = fast_copy(S)
@@ -135,39 +159,46 @@ def mk(H, W, stochastic, op):
             sx.check(isinstance(out, tuple) and len(out) == 2, 'step-returns-(reward, done)')
             reward, done = out
             draws = rng.log[n0:]
-            twin = make_env(H, W, stochastic, dict(obs_calls=0, obs_states=[], obs_tags=[], reset_calls=0, reset_rngs=[], reset_state=None))
+            twin = make_env(H, W, stochastic, new_counter())
             twin._rng = ReplayRng(sx, draws)
             nxt, r2, d2 = twin.functional_step(twin_in, a)
-            sx.check(env._state is not S, 'step-replaces-the-state')
-            states_equal(sx, env._state, nxt, 'step-state-equals-functional-step')
+            states_equal(sx, env.state, nxt, 'step-state-equals-functional-step')
             sx.check(reward == r2 and bool(done) == bool(d2), 'step-reward-and-flag-equal-functional-step', f'{reward},{done} vs {r2},{d2}')
             sx.check(twin._rng.n == len(draws), 'functional-twin-consumes-the-same-draws')
-            sx.check(env._observation is None, 'step-invalidates-the-memoised-observation')
             if op == 'step-then-reads':
                 c0 = counter['obs_calls']
                 ob1 = env.observation
                 n1 = rng.n
                 ob2 = env.observation
-                sx.check(counter['obs_calls'] == c0 + 1 and counter['obs_states'][-1] is env._state, 'observation-recomputed-once-from-the-post-step-state')
-                sx.check(ob2 is ob1 and rng.n == n1, 'second-read-returns-the-same-object-without-a-draw')
+                sx.check(counter['obs_calls'] == c0 + 1, 'observation-recomputed-once-after-the-step',
+                         f'observation function called {counter["obs_calls"] - c0} times at the two reads')
+                states_equal(sx, counter['obs_states'][-1], env.state, 'observation-computed-from-the-post-step-state')
+                states_equal(sx, counter['obs_states'][-1], nxt, 'observation-computed-from-the-functional-next-state')
+                sx.check(same_obs(ob2, ob1) and rng.n == n1, 'second-read-returns-the-same-observation-without-a-draw')
         elif op in ('observation', 'observation-twice'):
             ob1 = env.observation
             if memo == 'computed':
-                sx.check(ob1 is memo0 and counter['obs_calls'] == calls0 and rng.n == draws0, 'memoised-observation-returned-without-recomputation')
+                sx.check(same_obs(ob1, memo0) and counter['obs_calls'] == calls0 and rng.n == draws0, 'memoised-observation-returned-without-recomputation')
             else:
-                sx.check(counter['obs_calls'] == calls0 + 1 and counter['obs_states'][-1] is S, 'observation-computed-from-the-current-state')
+                sx.check(counter['obs_calls'] == calls0 + 1, 'observation-computed-once')
+                states_equal(sx, counter['obs_states'][-1], S, 'observation-computed-from-the-current-state')
                 sx.check(rng.n == draws0 + 1, 'one-computation-one-draw')
             if op == 'observation-twice':
                 n1, c1 = rng.n, counter['obs_calls']
                 ob2 = env.observation
-                sx.check(ob2 is ob1 and rng.n == n1 and counter['obs_calls'] == c1, 'repeated-read-same-object-no-draw')
-            sx.check(env._state is S, 'reading-the-observation-keeps-the-state')
+                sx.check(same_obs(ob2, ob1) and rng.n == n1 and counter['obs_calls'] == c1, 'repeated-read-same-observation-no-draw')
+            states_equal(sx, env.state, S, 'reading-the-observation-keeps-the-state')
         elif op == 'state':
-            sx.check(env.state is S, 'state-returns-the-current-state')
-            sx.check(env._observation is memo0 and counter['obs_calls'] == calls0, 'reading-the-state-keeps-the-memo')
-        # invariant: the memo is None or was computed from the current state
-        if env._observation is not None:
-            sx.check(counter['obs_states'] and counter['obs_states'][-1] is env._state, 'memo-belongs-to-the-current-state')
+            states_equal(sx, env.state, S, 'state-returns-the-current-state')
+            sx.check(counter['obs_calls'] == calls0 and rng.n == draws0, 'reading-the-state-computes-nothing')
+            ob = env.observation  # the memo (or its absence) survived the read
+            sx.check(counter['obs_calls'] == calls0 + (0 if memo == 'computed' else 1), 'reading-the-state-keeps-the-memo')
+            if memo == 'computed':
+                sx.check(same_obs(ob, memo0), 'reading-the-state-keeps-the-memoised-observation')
+        # whatever happened, the observation now read is the one computed last, from (a state equal to) the current state
+        ob_now = env.observation
+        sx.check(counter['obs_states'], 'an-observation-was-computed')
+        states_equal(sx, counter['obs_states'][-1], env.state, 'current-observation-belongs-to-the-current-state')
     return h
 
 
@@ -215,16 +246,14 @@ def mk_id_reuse(H, W):
     def h(sx):
         reset_gv_debug(False)
         calls = {'n': 0, 'last': None}
-        env = make_env(H, W, False, dict(obs_calls=0, obs_states=[], obs_tags=[], reset_calls=0, reset_rngs=[], reset_state=None))
-        real_obs = env._observation_function
+        counter = new_counter()
 
-        def obs_f(state, *, rng=None):  # counts, and remembers the state only weakly
+        def seen(state):  # counts, and remembers the state only weakly
             calls['n'] += 1
             calls['last'] = weakref.ref(state)
-            return OF.fully_transparent(state, area=env.observation_space.area, rng=rng)
 
-        env._observation_function = obs_f
-        env._rng = SymRng(sx)
+        env = make_env(H, W, False, counter, obs_wrap=seen)
+        rng = SymRng(sx)
         adv = AdversarialId()
         mods = (IE, GW, OE)
         for m in mods:
@@ -233,7 +262,7 @@ def mk_id_reuse(H, W):
             from ..stubs import ORS
             two = [e for e in SMALL8 if e[0] in ('Floor', 'Wall')]
             S, world = lazy_state(sx, H, W, two, held_sigma=[], orientations=ORS[:2])
-            env._state = S
+            install(env, counter, S, rng)
             del S
             env.observation
             n_ops = int(sx.int('ops', 2, 3))
@@ -243,16 +272,19 @@ def mk_id_reuse(H, W):
                     env.step(sx.choice(f'a{i}', [Action.TURN_LEFT, Action.MOVE_FORWARD, Action.ACTUATE]))
                 else:
                     fresh, _ = lazy_state(sx, H, W, two[:1], name=f'r{i}', held_sigma=[], agent=f'r{i}', held=f'rheld{i}', orientations=ORS[:1])
-                    env._reset_function = (lambda st: (lambda *, rng=None: st))(fresh)
+                    counter['reset_state'] = fresh
                     del fresh
                     env.reset()
-                    env._reset_function = None
+                    counter['reset_state'] = None
             before = calls['n']
             ob = env.observation
             sx.cover('read-after-unobserved-operations')
-            sx.check(calls['n'] == before + 1 and calls['last']() is env._state, 'observation-recomputed-from-the-current-state',
+            sx.check(calls['n'] == before + 1, 'observation-recomputed-after-unobserved-operations',
                      f'observation function called {calls["n"] - before} times at the read')
-            sx.check(env.observation is ob and calls['n'] == before + 1, 'then-memoised')
+            last = calls['last']()
+            sx.check(last is not None, 'observation-computed-from-a-live-state')
+            states_equal(sx, last, env.state, 'observation-recomputed-from-the-current-state')
+            sx.check(same_obs(env.observation, ob) and calls['n'] == before + 1, 'then-memoised')
         finally:
             for m in mods:
                 if 'id' in m.__dict__:
@@ -261,7 +293,7 @@ def mk_id_reuse(H, W):
 
 
 def h_before_reset(sx):
-    counter = dict(obs_calls=0, obs_states=[], obs_tags=[], reset_calls=0, reset_rngs=[], reset_state=None)
+    counter = new_counter()
     env = make_env(2, 2, False, counter)
     which = sx.choice('which', ['state', 'observation', 'step'])
     sx.cover('before-reset')
@@ -272,10 +304,12 @@ def h_before_reset(sx):
             env.observation
         else:
             env.step(Action.TURN_LEFT)
-    except RuntimeError:
+    except Exception:
         sx.check(counter['obs_calls'] == 0, 'nothing-computed-before-reset')
     else:
-        sx.fail('state-before-first-reset-does-not-raise')
+        if which == 'state':  # the statement is about the state; the other two only must not invent an observation
+            sx.fail('state-before-first-reset-does-not-raise')
+        sx.check(counter['obs_calls'] == 0, 'no-observation-computed-from-a-missing-state')
 
 
 class RecRep:
@@ -289,12 +323,11 @@ class RecRep:
 
 def h_outer(sx):
     reset_gv_debug(False)
-    counter = dict(obs_calls=0, obs_states=[], obs_tags=[], reset_calls=0, reset_rngs=[], reset_state=None)
+    counter = new_counter()
     env = make_env(2, 2, False, counter)
     rng = SymRng(sx)
-    env._rng = rng
     S, world = lazy_state(sx, 2, 2, SMALL8, held_sigma=[])
-    env._state = S
+    install(env, counter, S, rng)
     srep, orep = RecRep('s'), RecRep('o')
     with_reps = sx.choice('with_reps', [True, False])
     outer = OuterEnv(env, state_representation=srep if with_reps else None, observation_representation=orep if with_reps else None)
@@ -310,17 +343,18 @@ def h_outer(sx):
     if op in ('state', 'observation') and not with_reps:
         try:
             getattr(outer, op)
-        except RuntimeError:
+        except Exception:
             sx.check(True, 'missing-representation-raises')
         else:
             sx.fail('missing-representation-does-not-raise')
         return
     if op == 'state':
         out = outer.state
-        sx.check(out == {'s': S} and srep.seen == [S] and srep.seen[0] is S, 'outer-state-is-the-representation-of-the-inner-state')
+        sx.check(len(srep.seen) == 1 and out == {'s': srep.seen[0]}, 'outer-state-is-one-conversion')
+        states_equal(sx, srep.seen[0], env.state, 'outer-state-is-the-representation-of-the-inner-state')
     elif op == 'observation':
         out = outer.observation
-        sx.check(orep.seen and orep.seen[0] is env._observation and out['o'] is env._observation, 'outer-observation-is-the-representation-of-the-inner-observation')
+        sx.check(orep.seen and same_obs(orep.seen[-1], env.observation) and same_obs(out['o'], env.observation), 'outer-observation-is-the-representation-of-the-inner-observation')
         n = counter['obs_calls']
         outer.observation
         sx.check(counter['obs_calls'] == n, 'outer-observation-read-twice-computes-once')
@@ -328,21 +362,31 @@ def h_outer(sx):
         a = sx.choice('a', ACTIONS)
         twin_in = fast_copy(S)
         out = outer.step(a)
-        twin = make_env(2, 2, False, dict(obs_calls=0, obs_states=[], obs_tags=[], reset_calls=0, reset_rngs=[], reset_state=None))
+        twin = make_env(2, 2, False, new_counter())
         nxt, r2, d2 = twin.functional_step(twin_in, a)
         sx.check(isinstance(out, tuple) and out[0] == r2 and bool(out[1]) == bool(d2), 'outer-step-returns-inner-reward-and-flag')
-        states_equal(sx, env._state, nxt, 'outer-step-advances-the-inner-state-once')
-        sx.check(env._observation is None, 'outer-step-invalidates-the-observation')
+        states_equal(sx, env.state, nxt, 'outer-step-advances-the-inner-state-once')
         if with_reps:
-            sx.check(outer.state['s'] is env._state and outer.observation['o'] is env._observation, 'outer-views-current-after-step')
+            c0 = counter['obs_calls']
+            so, oo = outer.state['s'], outer.observation['o']
+            sx.check(counter['obs_calls'] == c0 + 1, 'outer-step-invalidates-the-observation')
+            states_equal(sx, so, nxt, 'outer-state-current-after-step')
+            states_equal(sx, counter['obs_states'][-1], nxt, 'outer-observation-current-after-step')
+            sx.check(same_obs(oo, env.observation), 'outer-views-current-after-step')
     elif op == 'reset':
         fresh, _ = lazy_state(sx, 2, 2, SMALL8, name='r', held_sigma=[], agent='r', held='rheld')
         counter['reset_state'] = fresh
-        sx.check(outer.reset() is None and env._state is fresh and env._observation is None and counter['reset_calls'] == 1, 'outer-reset-resets-the-inner-env')
+        outer.reset()
+        sx.check(counter['reset_calls'] == 1, 'outer-reset-resets-the-inner-env')
+        states_equal(sx, env.state, fresh, 'outer-reset-installs-the-reset-state')
         if with_reps:
-            sx.check(outer.state['s'] is fresh and outer.observation['o'] is env._observation and counter['obs_states'][-1] is fresh, 'outer-views-current-after-reset')
+            c0 = counter['obs_calls']
+            so, oo = outer.state['s'], outer.observation['o']
+            sx.check(counter['obs_calls'] == c0 + 1, 'outer-reset-invalidates-the-observation')
+            states_equal(sx, so, fresh, 'outer-state-current-after-reset')
+            states_equal(sx, counter['obs_states'][-1], fresh, 'outer-views-current-after-reset')
     else:
-        sx.check(outer.action_space is env.action_space, 'outer-action-space-is-inner-action-space')
+        sx.check(outer.action_space is env.action_space or outer.action_space == env.action_space, 'outer-action-space-is-inner-action-space')
 
 
 def obligations(tier):
